@@ -35,12 +35,13 @@ type limCase struct {
 	LaterFile         bool // file mode: the limit is crossed in a later stage
 	MaxDur            time.Duration
 	FailSetupHandleAt uint64 // iteration id that calls Fail on the scenario-level handle (0 = never)
+	SlowFirst         int    // users hand-over class: the iterations with ids <= SlowFirst take 80 ms, all others nothing
 	Huge              bool   // the limit is around 2^63 or 2^64-1: never reached
 	ShortPlan         bool   // staged/file: the trigger's own duration (1.2 s) is shorter than max-duration (8 s)
 }
 
 func (c limCase) desc() string {
-	s := fmt.Sprintf("%s N=%d c=%d per=%d/%dms dist=%s body=%dus failEvery=%d failSetupHandleAt=%d shortPlan=%v flags=%v", c.Mode, c.N, c.Conc, c.PerTick, c.TickMs, c.Dist, c.BodyUs, c.FailEvery, c.FailSetupHandleAt, c.ShortPlan, c.Flags)
+	s := fmt.Sprintf("%s N=%d c=%d per=%d/%dms dist=%s body=%dus failEvery=%d failSetupHandleAt=%d shortPlan=%v slowFirst=%d flags=%v", c.Mode, c.N, c.Conc, c.PerTick, c.TickMs, c.Dist, c.BodyUs, c.FailEvery, c.FailSetupHandleAt, c.ShortPlan, c.SlowFirst, c.Flags)
 	if c.YAML != "" {
 		s += " yaml=" + strings.ReplaceAll(c.YAML, "\n", "|")
 	}
@@ -140,7 +141,12 @@ func genCase(t *rapid.T) limCase {
 				// an early stage that certainly cannot reach the limit: one tick of fewer than N/3 requests
 				d = fmt.Sprintf("%dms", c.TickMs+30)
 				small := int(c.N) / (3 * nst)
-				if small < 1 {
+				if small >= 1 && c.BodyUs >= 60000 && rapid.Bool().Draw(t, fmt.Sprintf("earlyUsersStage%d", i)) {
+					// a users stage whose first iterations (60 ms) outlast it: each of its workers comes back to
+					// the id dispenser when the next stage's pool is already drawing ids from it
+					fmt.Fprintf(&b, "- duration: %s\n  mode: users\n  concurrency: %d\n", d, small)
+					c.LaterFile = true
+				} else if small < 1 {
 					fmt.Fprintf(&b, "- duration: %s\n  mode: constant\n  rate: 0/%dms\n  jitter: 0\n  distribution: none\n", d, c.TickMs)
 				} else {
 					fmt.Fprintf(&b, "- duration: %s\n  mode: constant\n  rate: %d/1s\n  jitter: 0\n  distribution: none\n", d, small)
@@ -158,6 +164,19 @@ func genCase(t *rapid.T) limCase {
 			}
 		}
 		c.YAML = b.String()
+		if limited && !c.ShortPlan && rapid.IntRange(0, 4).Draw(t, "usersHandOver") == 0 {
+			// users stage -> users stage: the first stage's workers are each inside an 80 ms iteration when
+			// the stage ends after 40 ms; they come back to the id dispenser while the second stage's workers
+			// draw ids from it as fast as they can (instant bodies, a limit of 1e5-3e5 keeps them at it)
+			u := rapid.IntRange(2, 8).Draw(t, "firstStageUsers")
+			c.Conc = rapid.IntRange(2, 8).Draw(t, "secondStageUsers")
+			c.N = uint64(rapid.IntRange(100000, 300000).Draw(t, "bigN"))
+			c.SlowFirst, c.BodyUs, c.FailEvery, c.FailSetupHandleAt = u, 0, 0, 0
+			c.LaterFile, c.Keeps = true, true
+			c.YAML = fmt.Sprintf("scenario: %s\nlimits:\n  max-duration: %s\n  concurrency: %d\n  max-iterations: %d\n  ignore-dropped: true\nstages:\n"+
+				"- duration: 40ms\n  mode: users\n  concurrency: %d\n- duration: 10s\n  mode: users\n  concurrency: %d\n",
+				vlib.ScenarioName, c.MaxDur, c.Conc, c.N, u, c.Conc)
+		}
 	}
 	return c
 }
@@ -196,6 +215,9 @@ func TestProp_LimitIsExact(t *testing.T) {
 				mu.Unlock()
 				if c.BodyUs > 0 {
 					time.Sleep(time.Duration(c.BodyUs) * time.Microsecond)
+				}
+				if c.SlowFirst > 0 && id <= uint64(c.SlowFirst) {
+					time.Sleep(80 * time.Millisecond)
 				}
 				if c.FailEvery > 0 && id%uint64(c.FailEvery) == 0 {
 					it.Fail()
@@ -263,6 +285,9 @@ func TestProp_LimitIsExact(t *testing.T) {
 		}
 		if c.Huge {
 			cls = append(cls, "limit-around-2^63-or-2^64")
+		}
+		if c.SlowFirst > 0 {
+			cls = append(cls, "users-stage-hands-over-to-a-busy-users-stage")
 		}
 		stats.Case("runs", c.desc(), nontrivial, cls, func() any {
 			return map[string]any{"case": c.desc(), "invocations": inv, "elapsed_ms": elapsed.Milliseconds(), "through_the_cli": viaCLI}
